@@ -85,7 +85,8 @@ BaseDecls(s, inj) ==
      [D("enum", s \o <<"E">>) EXCEPT !.fields = <<"Ok", "No">>],
      I1(s), I2(s),
      [D("component", s \o <<"M">>) EXCEPT !.ports =
-        <<Pt("p", <<"I1">>, "provides", FALSE), Pt("r", <<"I2">>, "requires", FALSE)>>
+        <<Pt("p", <<"I1">>, "provides", FALSE), Pt("r", <<"I2">>, "requires", FALSE),
+          Pt("r1", <<"I1">>, "requires", FALSE)>>          \* the component also requires the interface it provides
         \o (IF inj THEN <<Pt("q", <<"I2">>, "requires", TRUE)>> ELSE <<>>)] >>
 Sems == {"all_sts", "all_mts", "mts_sts", "sts_mts", "explicit", "explicit-only"}
 Prov(sem) == CASE sem \in {"all_sts", "sts_mts"} -> AllSts
@@ -93,7 +94,7 @@ Prov(sem) == CASE sem \in {"all_sts", "sts_mts"} -> AllSts
                [] OTHER -> [sts |-> Wild("NONE"), mts |-> Named({"p"})]
 Req(sem)  == CASE sem \in {"all_sts", "mts_sts"} -> AllSts
                [] sem \in {"all_mts", "sts_mts"} -> AllMts
-               [] sem = "explicit-only" -> [sts |-> Named({"r"}), mts |-> Wild("NONE")]      \* injected q stays unnamed
+               [] sem = "explicit-only" -> [sts |-> Named({"r", "r1"}), mts |-> Wild("NONE")]      \* injected q stays unnamed
                [] OTHER -> [sts |-> Named({"r"}), mts |-> Wild("REMAINING")]
 Bases == {b \in [s : {<<>>, <<"A">>}, inj : BOOLEAN, sem : Sems, mc : BOOLEAN] :
             b.mc => b.sem \in {"all_mts", "mts_sts", "explicit", "explicit-only"}}
@@ -102,12 +103,12 @@ BaseModel(b) == [decls |-> BaseDecls(b.s, b.inj),
 
 Faults == {"none", "enc-unknown", "enc-interface", "enc-enum", "enc-ambiguous",
            "port-type-missing", "port-type-wrong-kind", "port-type-ambiguous",
-           "sel-unknown", "sel-unassigned", "sel-contradictory", "sel-all-plus", "sel-mixed-provides",
+           "sel-unknown", "sel-unassigned", "sel-contradictory", "sel-all-plus", "sel-all-remaining", "sel-mixed-provides",
            "sel-equal-none",
-           "mc-port-unknown", "mc-port-requires", "mc-port-sts", "mc-claim-unknown", "mc-reply-not-enum",
+           "mc-port-unknown", "mc-port-requires", "mc-port-requires-same-itf", "mc-port-sts", "mc-claim-unknown", "mc-reply-not-enum",
            "mc-grant-bad", "mc-release-unknown",
            "formal-missing", "formal-wrong-kind", "formal-ambiguous"}
-McFaults == {"mc-port-unknown", "mc-port-requires", "mc-port-sts", "mc-claim-unknown", "mc-reply-not-enum",
+McFaults == {"mc-port-unknown", "mc-port-requires", "mc-port-requires-same-itf", "mc-port-sts", "mc-claim-unknown", "mc-reply-not-enum",
              "mc-grant-bad", "mc-release-unknown"}
 
 CompIdx(m) == CHOOSE i \in DOMAIN m.decls : m.decls[i].kind = "component"
@@ -128,10 +129,12 @@ Apply(m, b, f) ==
                                          !.cfg.req = [sts |-> Named({"r"}), mts |-> Wild("NONE")]]
     [] f = "sel-contradictory"  -> [m EXCEPT !.cfg.req = [sts |-> Named({"r"}), mts |-> Named({"r"})]]
     [] f = "sel-all-plus"       -> [m EXCEPT !.cfg.req = [sts |-> Wild("ALL"), mts |-> Named({"r"})]]
+    [] f = "sel-all-remaining"  -> [m EXCEPT !.cfg.req = [sts |-> Wild("ALL"), mts |-> Wild("REMAINING")]]
     [] f = "sel-mixed-provides" -> [m EXCEPT !.cfg.prov = [sts |-> Named({"p"}), mts |-> Wild("REMAINING")]]
     [] f = "sel-equal-none"     -> [m EXCEPT !.cfg.req = [sts |-> Wild("NONE"), mts |-> Wild("NONE")]]
     [] f = "mc-port-unknown"    -> [m EXCEPT !.cfg.mc.port = "zz"]
     [] f = "mc-port-requires"   -> [m EXCEPT !.cfg.mc.port = "r"]
+    [] f = "mc-port-requires-same-itf" -> [m EXCEPT !.cfg.mc.port = "r1"]
     [] f = "mc-port-sts"        -> [m EXCEPT !.cfg.prov = AllSts]
     [] f = "mc-claim-unknown"   -> [m EXCEPT !.cfg.mc.claim = "Nope"]
     [] f = "mc-reply-not-enum"  -> [m EXCEPT !.cfg.mc.claim = "Other"]
